@@ -7,7 +7,7 @@
 // property statement for exactly that arrival order and context end point.
 // Further monitors: which upstreams received the query (cyclic run of
 // clamp(c,1,3) positions, wrapping), what bytes they received (Pack(Q()),
-// private copies: every upstream scribbles over its payload), the context each
+// intact while an upstream works on them: released or reused buffers show through the pool sanitizer's poison), the context each
 // upstream is given (ends within 5 s), helper goroutines gone at quiescent
 // points (lib/leak), buffer-pool sanitizer, race detector (driver), start index
 // non-degeneracy, a loopback variant with the real NewForward / config path, and
